@@ -37,6 +37,80 @@ CLAIMS = {
         ref="DESIGN.md §5 C13", note=RECOG_NOTE, technique=RECOG_TECH),
 }
 
+GEN_NOTE = "Trusted: Coq kernel (vm_compute / vm_cast_no_check in the per-run certificates), Flocq + stdlib Reals axioms for float order (Print Assumptions output is copied verbatim into the evidence), the translator harness/internal/golite, the scenario renderer harness/internal/decl (Go source and Coq sdecl of the same declaration), go/constant for literal values, the reflection driver, net.ParseIP as oracle; imports.Process/format.Source and go/types resolution are not modelled."
+GEN_TECH = ("Coq model of the generator (gen_file) and of the emitted code (GoLite exec_file) + per-run kernel-checked certificates "
+            "that the rebuilt govalid's output equals the model's + differential of compiled validators vs model vs specification")
+
+
+def gen_claim(pid, text, ref):
+    CLAIMS[pid] = dict(text=text, ref=ref, note=GEN_NOTE, technique=GEN_TECH)
+
+
+gen_claim("C01", "Theorems C01_int / C01_float32 / C01_float64 / C01_nan_fails_all: Go's comparison operators on in-range integers and on "
+          "IEEE-754 values (Flocq) hold iff the mathematical relation holds (extended reals; NaN fails all four), and the rule's verdict in "
+          "the specification is the negated relation. Tie: for 168 synthesized declarations per quick run (12 numeric types + byte/rune x "
+          "top-level/nested/named x gt/gte/lt/lte x several bounds) the kernel certifies that the file emitted by the rebuilt govalid equals "
+          "gen_file of the model, and the compiled validators agree with the GoLite semantics and with expected(d, v) on boundary lattices "
+          "(all 256 values of 8-bit types).", "DESIGN.md §5 C01")
+gen_claim("C02", "Per-run certificates (emitted file = gen_file d) and differential of compiled code vs GoLite semantics vs the specification "
+          "is_zero_value for every documented type of `required` (all integer kinds, floats incl. -0.0/NaN, complex, bool, string, pointer, "
+          "interface, any, error, func, slice/map/chan nil vs empty, arrays of length 0/1/3, named and alias types over each), top-level and nested.",
+          "DESIGN.md §5 C02")
+gen_claim("C03", "Per-run certificates and differential for minlength/maxlength/length over strings built from 1-4 byte runes, lone continuation "
+          "bytes, 0xFF and truncated lead bytes; the rune decoder model (Base/Utf8.v) is compared with Go's utf8 package on ~4e5 strings by C06/C11 runs.",
+          "DESIGN.md §5 C03")
+gen_claim("C04", "Per-run certificates and differential for minitems/maxitems on slices, maps, channels (buffered count), arrays (declared size) and "
+          "named types over them, nil vs empty, lengths 0..7, top-level and nested.", "DESIGN.md §5 C04")
+gen_claim("C05", "Per-run certificates and differential for enum on string / integer / float / named fields: padded items, duplicates, items with "
+          "quotes and backslashes, non-ASCII items, hexadecimal/octal/underscored numeric items; values from the list, case changes, prefixes, +-1, zero.",
+          "DESIGN.md §5 C05")
+gen_claim("C06", "Theorems IsValidAlpha_exact / IsNumeric_exact (Helpers/AlnumProofs.v) and C11-C13 for the recognizers; per-run certificates and "
+          "differential for the seven format markers at top level, combined with required/length markers, and nested two levels deep; ipv4/ipv6 "
+          "are defined by net.ParseIP (oracle, evaluated by the standard library on the corpus strings).", "DESIGN.md §5 C06")
+gen_claim("C07", "Per-run certificates and differential on random structs (1-12 fields, 0-4 markers, nesting <= 2): the compiled validator's report "
+          "equals expected(d, v) as a multiset of (Path, Type, Value-matches-field), nil receiver yields ErrNil<T>, and errors.Is over every exported "
+          "sentinel (directly and through %w) agrees with the report. Known findings D7-D10 are recognized by the Coq class predicates of Gen/Guard.v.",
+          "DESIGN.md §5 C07")
+gen_claim("C08", "Per-run certificates plus the Go compiler as decision procedure: every corpus package (several structs and files per package, up to "
+          "40 fields, nesting <= 3, parameters needing escaping) must build together with compile-time assertions that *T implements govalid.Validator "
+          "and govalid.ContextValidator, pass go vet and be gofmt-clean. Partial w.r.t. the full Go type checker (not modelled).", "DESIGN.md §5 C08")
+gen_claim("C09", "Per-run certificates and differential over declaration shapes: struct-level vs per-field placement of the same markers (compared "
+          "entry by entry), multi-name fields, type ( ... ) groups mixing struct and non-struct specs, embedded fields, deep nesting, 100 fields; "
+          "every written rule violated by some case must be reported.", "DESIGN.md §5 C09")
+gen_claim("C15", "Per-run certificates; the compiled ValidateContext is run with a context that turns done at its k-th Err() call for every k up to "
+          "past the undisturbed count (Canceled and DeadlineExceeded): result must be exactly ctx.Err() when observed, identical to Validate() otherwise; "
+          "the number of Err() calls must equal the GoLite semantics' prediction; all four entry points must agree.", "DESIGN.md §5 C15")
+gen_claim("C16", "Per-run certificates (the emitted code contains no write to the receiver or to a package-level sentinel: ASetGlobalValue is representable "
+          "and absent); deep fingerprints of receiver and sentinels before/after every case; race-detector builds of the driver (goroutines validating shared "
+          "and own values) and of the runtime helpers. Partial: the Go memory model and the race detector's coverage are outside the model.", "DESIGN.md §5 C16")
+gen_claim("C17", "Theorems C11_total / C12_total / C13_total (recognizers never panic, all byte strings); per-run certificates; adversarial lattice "
+          "(NaN, infinities, extreme integers, nil/empty/huge collections, nil pointers and interfaces, nil receiver) plus 1 MiB strings and >4e6 malformed "
+          "recognizer inputs run through the rebuilt code under recover().", "DESIGN.md §5 C17")
+gen_claim("C19", "Per-run certificates; the GoLite semantics counts executed allocation sites (Append, boxing) and predicts 0 on every valid value; "
+          "testing.AllocsPerRun for Validate(), Validate<T>(t), Validate<T>Context(Background, t) must be 0 for every valid value of the C01-C07 corpora and "
+          "for long strings / large collections. Partial: escape analysis and stdlib internals are measured, not modelled.", "DESIGN.md §5 C19")
+CLAIMS["C14"] = dict(
+    text="Theorems C14_isolated / C14_order_insensitive / C14_pure on the GeneratorMemory state machine (Gen/Memory.v): whatever memory earlier structs, "
+         "packages or runs left and in whatever order packages obtain the mutex, a struct's declarations are those of generating it alone. Tie: the rebuilt "
+         "govalid on packages reusing struct/field names: alone vs together, GOMAXPROCS 1/2/16, repeated, subsets and orders, directory and single-file "
+         "forms, second and third run, directory snapshots, permuted declarations, and a -race build. Partial: scheduler and race detector are not modelled.",
+    ref="DESIGN.md §5 C14", note="Trusted: Coq kernel; the state-machine abstraction of the unsynchronised-map/mutex code; x/tools singlechecker, go/packages.",
+    technique="Coq proof on a state-machine model of the generator memory + differential runs of the rebuilt CLI")
+CLAIMS["C18"] = dict(
+    text="Theorems C18_spelling / C18_output_unchanged / C18_idempotent / C18_only_marker_lines / C18_lookalikes_preserved / C18_dry_run_writes_nothing / "
+         "C18_second_run_is_noop about Misc/Migrate.v (with a tokenizer state machine standing for go/scanner) and Gen/Template.v. Tie: synthesized files "
+         "(both spellings, 5 indentations, LF/CRLF/mixed, missing final newline, look-alikes in raw strings, block comments, string literals, trailing "
+         "comments, tokenizer traps) through the rebuilt `govalid migrate` (--dry-run, migrate, migrate again) compared byte for byte with the extracted "
+         "model; generated validators for both spellings and for the migrated package byte-compared.",
+    ref="DESIGN.md §5 C18", note="Trusted: Coq kernel, extraction, OCaml driver, hand-written model of migrate.go + go/scanner (validated by the differential), go/packages.",
+    technique="Coq proof about an executable model + byte-for-byte differential with the rebuilt CLI")
+CLAIMS["C20"] = dict(
+    text="Theorems C20_next_iff(_ctx) / C20_rejected(_ctx) / C20_cancelled_gives_408 / C20_never_both about Misc/Middleware.v, a model of both handlers as "
+         "functions of two oracles (does the body decode; what does validation return). Tie: net/http/httptest runs of both variants on ~1.3e3 (body, "
+         "variant, request-context state, type) combinations including the repository's fixture type; oracle values are obtained by direct calls in the same process.",
+    ref="DESIGN.md §5 C20", note="Trusted: Coq kernel, extraction, OCaml driver, hand-written model of middleware.go; encoding/json, net/http and errors.Is are oracles.",
+    technique="Coq proof about an executable model + httptest differential")
+
 NOT_YET = ("check not built yet (work in progress; will be claimed once its Coq model, theorems and correspondence "
            "check exist)")
 
